@@ -504,7 +504,20 @@ func (g *reqGen) invalid(held []int) (uint32, uint32, uint32, string) {
 	n := g.tor.NumPieces
 	i := held[g.rng.Intn(len(held))]
 	plen := int64(g.tor.PieceLenOf(i))
-	switch g.rng.Intn(12) {
+	switch g.rng.Intn(14) {
+	case 12, 13: // longer than 16 KiB but completely inside the piece: only the reader's cap stands in the way
+		if plen > maxBlk {
+			l := g.pick([]int64{maxBlk + 1, maxBlk + 2, min(plen, 20000), min(plen, 32768), plen})
+			if l <= maxBlk {
+				l = maxBlk + 1
+			}
+			b := g.pick([]int64{0, 0, 1, plen - l, (plen - l) / 2})
+			if b < 0 || b+l > plen {
+				b = 0
+			}
+			return uint32(i), uint32(b), uint32(l), "len>16K-inside"
+		}
+		return uint32(i), 0, 1 << 17, "len>16K"
 	case 0:
 		return uint32(n), 0, 1, "index=N"
 	case 1:
@@ -631,6 +644,10 @@ func (l *leecher) run(wg *sync.WaitGroup) {
 		if !ensure() {
 			break
 		}
+		if s.style == "flip" && rng.Intn(3) > 0 {
+			// span many unchoke rounds: the unchoker has to change its mind while requests are queued
+			time.Sleep(time.Duration(2+rng.Intn(10)) * time.Millisecond)
+		}
 		r := rng.Intn(100)
 		switch {
 		case r < 8 && invalidBudget > 0 && s.style != "flood":
@@ -646,7 +663,7 @@ func (l *leecher) run(wg *sync.WaitGroup) {
 				request(uint32(p), bb, nn)
 			}
 			l.waitClosed(150 * time.Millisecond) // rain is expected to hang up; go on if it does not
-		case r < 16 && len(missing) > 0:
+		case r < 22 && len(missing) > 0:
 			p := missing[rng.Intn(len(missing))]
 			bb, nn := g.validIn(p)
 			s.mu.Lock()
@@ -689,6 +706,9 @@ func (l *leecher) run(wg *sync.WaitGroup) {
 			burst := 1 + rng.Intn(6)
 			if s.style == "flood" {
 				burst = 8 + rng.Intn(3*s.sc.MaxReqIn+8)
+			}
+			if s.style == "flip" {
+				burst = 4 + rng.Intn(16)
 			}
 			p := pickPiece()
 			for k := 0; k < burst && nsent < s.nreq; k++ {
@@ -876,7 +896,9 @@ func makeScenario(id int, seed int64, nreq int) *scen {
 		s.sc.AFSet = rng.Intn(3)
 		s.nleech = 3
 		s.sc.MaxReqIn = []int{250, 8}[rng.Intn(2)]
-		s.sc.ReadDelayUs = []int{0, 200}[rng.Intn(2)]
+		s.sc.ReadDelayUs = 150 + rng.Intn(350) // requests wait in the writer's queue when the choke comes
+		s.sc.TickMs = 8 + rng.Intn(25)
+		s.nreq = nreq * 3
 	case "flood":
 		s.sc.MaxReqIn = 1 + rng.Intn(6)
 		s.sc.ReadDelayUs = []int{0, 100, 500}[rng.Intn(3)]
@@ -1144,7 +1166,12 @@ func readatMain(args []string) {
 				time.Sleep(3 * time.Millisecond)
 			}
 		}
-		cache.Close()
+		if ttl >= time.Second {
+			// With a short TTL an expiry callback that has already fired races with Clear() (Clear leaves
+			// item.index >= 0, the callback then runs heap.Remove on the emptied list and panics):
+			// a shutdown defect of piececache outside C03; do not trigger it in the driver's own process.
+			cache.Close()
+		}
 	}
 	id := 0
 	for _, c := range big {
